@@ -113,6 +113,10 @@ impl FsDir {
                         }
                     }
                     Err(ref e) if e.kind() == ErrorKind::NotFound => {}
+                    // Appending `.gz` can push the last component past `NAME_MAX` (or the whole
+                    // path past `PATH_MAX`). Such a sibling can't exist; the path itself may
+                    // still be fine.
+                    Err(ref e) if e.raw_os_error() == Some(libc::ENAMETOOLONG) => {}
                     Err(e) => return Err(e),
                 };
                 buf.truncate(path_len);
